@@ -148,7 +148,7 @@ func matchViaAllow(pattern, name string) bool {
 
 func runC17(c *core.Ctx) {
 	patAlpha := []string{"a", "b", "/", "*", "?", "[", "]", "^", "-", "\\", "!"}
-	nameAlpha := []string{"a", "b", "/", "-", "]", "!"}
+	nameAlpha := []string{"a", "b", "/", "-", "]", "!", "\\"}
 	pl, nl := 4, 4
 	if !c.Quick() {
 		pl, nl = 6, 5
@@ -158,7 +158,7 @@ func runC17(c *core.Ctx) {
 		// thorough bound: '!' (added to both alphabets later than the others) up to pattern length 5 / name length 4
 		kept := names[:0]
 		for _, n := range names {
-			if len(n) == nl && strings.Contains(n, "!") {
+			if len(n) == nl && strings.ContainsAny(n, "!\\") {
 				continue
 			}
 			kept = append(kept, n)
@@ -387,7 +387,7 @@ func init() {
 	core.Register(&core.Property{
 		ID:    "C17",
 		Level: "exploration",
-		Rule: "exhaustive: every pattern of length<=4 (quick) / <=6 (thorough) over {a b / * ? [ ] ^ - \\ !} x every name of length<=4 / <=5 over {a b / - ] !} (thorough: '!' only up to pattern length 5 / name length 4), plus seeded random ASCII and valid-UTF-8 patterns<=24 / names<=40 (half of the names derived from the pattern so that matches are frequent), plus token-based random patterns (1-7 tokens from {literal, *, ?, class, negated class, range, escape} with a name derived from them; a third of these pairs is also observed through the MATCH rule of VerifyArtifacts (without and with a source prefix) and through ALLOW rules that use the pattern in both rule lists of one item); " +
+		Rule: "exhaustive: every pattern of length<=4 (quick) / <=6 (thorough) over {a b / * ? [ ] ^ - \\ !} x every name of length<=4 / <=5 over {a b / - ] ! \\} (thorough: '!' only up to pattern length 5, '!' and '\\' only up to name length 4), plus seeded random ASCII and valid-UTF-8 patterns<=24 / names<=40 (half of the names derived from the pattern so that matches are frequent), plus token-based random patterns (1-7 tokens from {literal, *, ?, class, negated class, range, escape} with a name derived from them; a third of these pairs is also observed through the MATCH rule of VerifyArtifacts (without and with a source prefix) and through ALLOW rules that use the pattern in both rule lists of one item); " +
 			"observation = len(NewSet(name).Filter(pattern))==1, oracle = reference matcher written from the documented grammar; non-trivial = the pattern contains a metacharacter; distinct = enumerated pairs are distinct by construction, random pairs by hash of (pattern,name)",
 		Assumptions: []string{
 			"the reference matcher encodes the documented grammar; a negated class containing a reversed range ([^b-a]) is not judged (counted as inconclusive)",
